@@ -56,7 +56,7 @@ def owners(unit, fn, arm, kind=None):
     arm = arm or '-'
     for (u, f, a, k, pids) in RULES:
         if fnmatchcase(unit, u) and fnmatchcase(fn, f) and (a == '*' or fnmatchcase(arm, a)):
-            if kind is None or fnmatchcase(kind, k):
+            if kind is None or fnmatchcase(kind, k) or fnmatchcase(kind.split(':')[0], k):
                 for p in pids:
                     if p not in out:
                         out.append(p)
@@ -226,6 +226,17 @@ for c in 'per':
 for c in "+-*/^%!<>&|":
     rule(T, 'next', "Some('%s')" % ('[*]' if c == '*' else c), ['post', 'assert'], ['C04'])      # `*` is a glob character
 rule(T, 'next', "Some('@')", ['post', 'assert'], ['C14'])
+# by lexical class of the failed clause, whatever the arm is called (an arm merged / split / renamed by a change keeps its owners)
+rule(T, 'next', '*', ['post:super'], ['C13', 'C03', 'C04'])
+rule(T, 'next', '*', ['post:word'], ['C10', 'C13', 'C03', 'C12'])
+rule(T, 'next', '*', ['post:sym'], ['C04', 'C03', 'C14', 'C12'])
+rule(T, 'next', '*', ['post:lit'], ['C19', 'C03', 'C15'])
+rule(T, 'next', '*', ['post:other'], ['C03'])
+rule('complex-tok', 'next', '*', ['post:word', 'post:lit'], ['C08'])
+rule('number-tok', 'next', '*', ['post:lit'], ['C09'])
+rule('i64-tok', 'next', '*', ['post:lit'], ['C06'])
+rule('decimal-tok', 'next', '*', ['post:lit'], ['C07'])
+rule('f64-tok', 'next', '*', ['post:lit'], ['C05'])
 
 
 # ---- every refinement obligation of a parser is part of "Ok iff the text is an expression of the grammar" (C03) and of the
